@@ -15,6 +15,11 @@ placement of the references inside each setup's channel list.
 The segment-length axis holds powers of two AND lengths that are not (odd: 65, 127, ...; even: 100) on both routes: on every
 point the returned frequency vector has to be the single-setup grid k*fs/nxseg, k = 0..floor(nxseg/2) (for an odd nxseg the
 last line lies below fs/2, and nxseg*pov is not an integer).
+Several algorithm instances on ONE multi-setup object (the shared route): for every layout one `MultiSetup_PreGER` object carries
+3..5 `FDD_MS` / `EFDD_MS` / `pLSCF_MS` instances that differ in exactly one setting (the overlap, the estimator, or the segment
+length); they are run by `run_all`, then again one by one in reversed order with `run_by_name` on the same object, and by `run_all`
+on a second object they were added to one at a time in reversed order. After every pass EVERY instance's `result.{freq,Sy}` is
+judged exactly as on the class route, against the single-setup matrix for ITS OWN settings.
 """
 import itertools
 
@@ -25,13 +30,16 @@ from mc.core import Tally
 
 ID = "C04"
 TECHNIQUE = ("exhaustive walk of the configuration lattice (layout, estimator, segment length, overlap, length, per-setup "
-             "gains, reference placement, class) around a payload recording; oracle on every point: the single-setup "
+             "gains, reference placement, class, several differently-set algorithm instances on one multi-setup object x run order) "
+             "around a payload recording; oracle on every point: the single-setup "
              "spectral matrix and the mean/transmissibility relations of the statement, line by line")
 LEVEL_TEXT = ("bounded-exhaustive over the stated lattice; the quantifier over all recordings is covered by one payload "
               "recording per (seed, channel count, length); SD_est is the reference of this property (it is decided by C13)")
 RULE = ("function route: one case = (channels, references, composition of roving channels into setups, estimator, nxseg, "
         "overlap, length, gain vector); class route: one case = (class, layout, placement of the references in every "
-        "setup's channel list, estimator, overlap, gain vector). Non-trivial iff at least one setup has a gain != 1 or "
+        "setup's channel list, estimator, overlap, gain vector); shared route: one case = (layout, placement, the setting that "
+        "differs, the list of algorithm instances on the one object, gain vector, pass, instance) - always non-trivial (>= 3 "
+        "instances with different settings share the object). Function and class route: non-trivial iff at least one setup has a gain != 1 or "
         "the overlap differs from the library default 0.5 or the references are not the leading columns of every setup or "
         "the setups come from different stretches of the recording "
         "(otherwise the call cannot tell forwarding/ordering faults from correct behaviour)")
@@ -44,6 +52,10 @@ ASSUMPTIONS = [
     "segment lengths: powers of two plus odd (65, 127; thorough also 255, 2047) and even non-power-of-two (100) values, on the "
     "function route and on the class route; the 'same frequency grid' clause is judged on every point against both "
     "k*fs/nxseg (k = 0..floor(nxseg/2)) and the vector SD_est returns for the single-setup estimate",
+    "shared route: the instances on one MultiSetup_PreGER object differ in exactly one of (overlap, estimator, segment length) "
+    "(a pLSCF_MS member repeats the setting of one FDD member); the orders walked are: added order (run_all), reversed "
+    "(run_by_name on the same object, i.e. every instance is run a second time after the others), reversed addition order on "
+    "a fresh object (run_all); all k! orders are not walked",
 ]
 
 NXSEG_ODD_QUICK = (65, 127)             # odd segment lengths: the last line is below fs/2, nxseg*pov is not an integer
@@ -469,6 +481,143 @@ def class_item(item):
 
 
 # ------------------------------------------------------------------------------------------------
+# route 3: several algorithm instances with different settings on ONE MultiSetup_PreGER object
+
+SHARED_AXES = ("overlap", "estimator", "nxseg")
+SHARED_PASSES = ("run_all", "same-object:run_by_name-reversed", "fresh-object:added-reversed-one-by-one:run_all",
+                 "first-object-read-again-after-the-second-object-ran")
+
+
+def reference_datasets(Xs, layout, place, gains):
+    """The per-setup arrays with the references at the positions `place` (as on the class route)."""
+    k = layout[1]
+    datasets = []
+    for g, mv, p, X in zip(gains, setups_of(layout), place, Xs):
+        n_ch = k + len(mv)
+        cols = [None] * n_ch
+        for j, pos in enumerate(p):
+            cols[pos] = j
+        rest = iter(mv)
+        for pos in range(n_ch):
+            if cols[pos] is None:
+                cols[pos] = next(rest)
+        datasets.append(g * X[:, cols])
+    return datasets
+
+
+def shared_item(item):
+    """One item = one (layout, placement, differing setting, list of instances, gain vector): three passes, every instance judged
+    after every pass against the expectation for its own (estimator, nxseg, overlap)."""
+    import pyoma2.algorithms as alg
+    from pyoma2.setup import MultiSetup_PreGER
+
+    seed, thorough, cfg = item
+    idx, layout, place, axis, algs, N, gains = cfg
+    n, k, comp = layout
+    S = len(comp)
+    gains = tuple(gains)
+    algs = [tuple(a) for a in algs]
+    t = Tally()
+    Xs = records(seed, n, N, S, False)
+    datasets = reference_datasets(Xs, layout, place, gains)
+    exs = {}
+    for cls, method, nxseg, pov in algs:
+        if (method, nxseg, pov) not in exs:
+            exs[(method, nxseg, pov)] = Expect(Xs, layout, gains, nxseg, pov, method)
+    # ground truth: do the instances of this object expect different matrices at all?
+    keys = list(exs)
+    for a, b in itertools.combinations(keys, 2):
+        A, B = exs[a], exs[b]
+        if A.Sy.shape != B.Sy.shape:
+            differ = True
+        else:
+            jj = A.judged & B.judged
+            differ = bool(np.any(jj)) and line_err(A.Sy, B.Sy, jj) > 1e-3
+        if differ:
+            t.outcomes[f"shared:expected-matrices-of-two-instances-differ:{axis}:{'+'.join(sorted({a[0], b[0]}))}"] += 1
+    names = [f"a{i}" for i in range(len(algs))]
+
+    def make(i):
+        cls, method, nxseg, pov = algs[i]
+        kw = dict(name=names[i], nxseg=nxseg, method_SD=method, pov=pov)
+        if cls == "pLSCF_MS":
+            kw["ordmax"] = 2
+        return getattr(alg, cls)(**kw)
+
+    def judge_all(inst, pss, ran=True):
+        for i, a in enumerate(inst):
+            cls, method, nxseg, pov = algs[i]
+            ex = exs[(method, nxseg, pov)]
+            t.states += 1
+            if ran:
+                t.evaluations += 1
+                t.transitions += 1
+            t.nontrivial.add(("S", idx, pss, i))
+            case = {"part": "shared", "cfg": [idx, list(layout[:2]) + [list(comp)], [list(p) for p in place], axis, [list(x) for x in algs], N, list(gains)],
+                    "pass": pss, "instance": names[i], "class": cls, "seed": seed}
+            others = [f"{names[j]}={algs[j][0]}({algs[j][1]},{algs[j][2]},{algs[j][3]})" for j in range(len(algs)) if j != i]
+            cfgtxt = (f"{cls} '{names[i]}' (method_SD={method}, nxseg={nxseg}, pov={pov}) on one MultiSetup_PreGER object together with {others}; pass "
+                      f"'{pss}'; n={n} refs={k} roving per setup={list(comp)} ref_ind={[list(p) for p in place]} samples={N}")
+            res = a.result
+            if res is None or getattr(res, "Sy", None) is None:
+                t.violation(f"shared-setup:{axis}:no-result:{cls}", f"no result after the pass; {cfgtxt}", case)
+                continue
+            tj = Tally()
+            ok = judge(tj, f"shared-setup:{cls}", case, cfgtxt, res.freq, res.Sy, ex, Xs, layout, gains, nxseg, pov, method)
+            if tj.violations:
+                # one cause, one class: the matrix is the one prescribed for ANOTHER instance of the same object
+                Sy = np.asarray(res.Sy)
+                for j in range(len(algs)):
+                    o = exs[algs[j][1:]]
+                    if algs[j][1:] != algs[i][1:] and o.Sy.shape == Sy.shape and line_err(Sy, o.Sy, ex.judged & o.judged) <= TOL:
+                        e = line_err(Sy, ex.Sy, ex.judged)
+                        tj.violations.clear()
+                        tj.violation(f"shared-setup:{axis}:matrix-of-another-instance:{cls}:{method}",
+                                     f"the merged matrix is the one for the settings of instance '{names[j]}' (method_SD={algs[j][1]}, nxseg={algs[j][2]}, "
+                                     f"pov={algs[j][3]}), not for its own: deviation {e:.3g} of the largest entry of a line; gains {gains}; {cfgtxt}", case)
+                        break
+            t.merge(tj)
+            if ok:
+                t.outcomes[f"shared:{axis}:{pss}:ok"] += 1
+                t.outcomes[f"shared:class-ok:{cls}"] += 1
+
+    def fresh():
+        return MultiSetup_PreGER(fs=FS, ref_ind=[list(p) for p in place], datasets=[d.copy() for d in datasets])
+
+    stage = "build"
+    try:
+        ms = fresh()
+        inst = [make(i) for i in range(len(algs))]
+        ms.add_algorithms(*inst)
+        stage = SHARED_PASSES[0]
+        ms.run_all()
+        judge_all(inst, SHARED_PASSES[0])
+        stage = SHARED_PASSES[1]
+        for nm in reversed(names):
+            ms.run_by_name(nm)
+        judge_all(inst, SHARED_PASSES[1])
+        stage = SHARED_PASSES[2]
+        ms2 = fresh()
+        inst2 = [make(i) for i in range(len(algs))]
+        for a in reversed(inst2):
+            ms2.add_algorithms(a)
+        ms2.run_all()
+        judge_all(inst2, SHARED_PASSES[2])
+        # the first object's results are still what they were
+        judge_all(inst, SHARED_PASSES[3], ran=False)
+    except Exception as e:
+        t.evaluations += 1
+        case = {"part": "shared", "cfg": [idx, list(layout[:2]) + [list(comp)], [list(p) for p in place], axis, [list(x) for x in algs], N, list(gains)],
+                "pass": stage, "seed": seed}
+        t.violation(f"raises:{type(e).__name__}:shared-setup:{axis}", f"{stage}: raised {type(e).__name__}: {e}; instances {algs}; n={n} refs={k} roving per setup={list(comp)}", case)
+    if idx % 37 == 0:
+        t.sample({"part": "shared", "layout": {"channels": n, "references": k, "roving_per_setup": list(comp)}, "ref_ind": [list(p) for p in place],
+                  "differing_setting": axis, "instances": [list(x) for x in algs], "gains": list(gains), "samples": N,
+                  "violations": len(t.violations)})
+    return t
+
+
+# ------------------------------------------------------------------------------------------------
 
 POVS = (0.0, 0.25, 0.5, 0.75)
 
@@ -548,9 +697,58 @@ def class_lattice(thorough):
     return out
 
 
+SHARED_POV_ORDER = (0.5, 0.0, 0.75, 0.25)
+SHARED_CLASS_PATTERNS = (("FDD_MS", "EFDD_MS", "FDD_MS", "EFDD_MS"), ("EFDD_MS", "FDD_MS", "EFDD_MS", "FDD_MS"),
+                         ("FDD_MS", "FDD_MS", "EFDD_MS", "EFDD_MS"), ("EFDD_MS", "EFDD_MS", "FDD_MS", "FDD_MS"))
+
+
+def shared_lattice(thorough):
+    """(index, layout, placement, differing setting, instances [(class, estimator, nxseg, overlap)], samples, gain vector).
+    For every layout (thorough: <= 7 channels) and placement (quick: the first and the second placement of the class route
+    alternate over the layouts; thorough: both), four groups of instances on one object:
+      overlap x 'per' and overlap x 'cor': 4 FDD_MS/EFDD_MS instances with the overlaps 0.5, 0, 0.75, 0.25 (order rotated over the
+        layouts, class pattern rotated over the layouts), nxseg 64; plus a pLSCF_MS instance with the second overlap (quick: on
+        every third layout);
+      estimator: 3 instances ('per', 'cor', 'per' or 'cor', 'per', 'cor'), one nxseg 64 and one overlap (rotating);
+      nxseg: 3 instances with 64, 128, 65 (thorough: 4, plus 100; order rotated), one estimator (quick: alternating; thorough:
+        both) and one overlap (rotating).
+    Record: 4.5 segments of the longest segment length of the group. Gains: all ones; the mixed vector on every third layout
+    (thorough: every layout)."""
+    out = []
+    for li, layout in enumerate(layouts(thorough)):
+        if thorough and layout[0] > 7:
+            continue
+        S = len(layout[2])
+        ps = placement_sets(layout, thorough)
+        places = ps[:2] if thorough else [ps[li % 2] if len(ps) > 1 else ps[0]]
+        mixed = tuple(GAINS[(i + 1) % 3] for i in range(S))
+        gvs = [(1.0,) * S] + ([mixed] if (thorough or li % 3 == 0) else [])
+        for pi, place in enumerate(places):
+            r = li + pi
+            groups = []
+            povs = [SHARED_POV_ORDER[(r + i) % 4] for i in range(4)]
+            pat = SHARED_CLASS_PATTERNS[(r // 2) % 4]
+            for method in ("per", "cor"):
+                g = [(pat[i], method, 64, povs[i]) for i in range(4)]
+                if thorough or li % 3 == (0 if method == "per" else 1):
+                    g.insert(2, ("pLSCF_MS", method, 64, povs[1]))
+                groups.append(("overlap", g))
+            ms = ("per", "cor", "per") if r % 2 == 0 else ("cor", "per", "cor")
+            groups.append(("estimator", [(pat[i + 1], ms[i], 64, POVS[r % 4]) for i in range(3)]))
+            nxs = (64, 128, 65, 100) if thorough else (64, 128, 65)
+            for method in (("per", "cor") if thorough else (("per", "cor")[r % 2],)):
+                groups.append(("nxseg", [(pat[i % 4], method, nxs[(r + i) % len(nxs)], (0.25, 0.75, 0.0)[r % 3]) for i in range(len(nxs))]))
+            for axis, algs in groups:
+                N = int(round(4.5 * max(a[2] for a in algs)))
+                for gains in gvs:
+                    out.append((len(out), layout, place, axis, algs, N, gains))
+    return out
+
+
 def explore(ctx):
     F = func_lattice(ctx.thorough)
     C = class_lattice(ctx.thorough)
+    H = shared_lattice(ctx.thorough)
     lay = layouts(ctx.thorough)
     ctx.bounds = {
         "layouts": {"count": len(lay), "channels": sorted({l[0] for l in lay}), "references": sorted({l[1] for l in lay}),
@@ -572,6 +770,12 @@ def explore(ctx):
                         "placements": "full product of all ordered placements when every setup has <= 4 channels and the product is <= "
                                       + ("300" if ctx.thorough else "40") + "; else a covering set (leading, trailing, trailing reversed, "
                                       "spread, rotated over the setups) plus every arrangement of each <=4-channel setup once"},
+        "shared_route": {"items": len(H), "what": "several algorithm instances that differ in exactly one setting on ONE MultiSetup_PreGER object",
+                         "differing_setting": {a: sum(1 for c in H if c[3] == a) for a in SHARED_AXES},
+                         "instances_per_object": sorted({len(c[4]) for c in H}), "classes": sorted({a[0] for c in H for a in c[4]}),
+                         "passes": list(SHARED_PASSES), "nxseg": sorted({a[2] for c in H for a in c[4]}), "pov": sorted({a[3] for c in H for a in c[4]}),
+                         "gain_vectors": sorted({tuple(c[6]) for c in H}), "instance_runs": sum(3 * len(c[4]) for c in H),
+                         "note": shared_lattice.__doc__},
         "fs": FS,
     }
     for c in F:
@@ -582,12 +786,21 @@ def explore(ctx):
             records(ctx.seed, c[1][0], int(round(c[6] * c[4])), len(c[1][2]), st)
     ctx.pmap(func_item, [(ctx.seed, ctx.thorough, c) for c in sorted(F, key=lambda c: -c[3] * c[5] * len(gain_vectors(len(c[1][2]), c[6])))], chunksize=2)
     ctx.pmap(class_item, [(ctx.seed, ctx.thorough, c) for c in C], chunksize=4)
+    for c in H:
+        records(ctx.seed, c[1][0], c[5], len(c[1][2]), False)
+    ctx.pmap(shared_item, [(ctx.seed, ctx.thorough, c) for c in H], chunksize=2)
     ctx.require("single-setup-equal:per", "single-setup-equal:cor", "relations-hold:per", "relations-hold:cor",
                 "gain-only-changes-mean-reference-block:per", "gain-only-changes-mean-reference-block:cor",
                 "class-ok:FDD_MS", "class-ok:EFDD_MS", "class-ok:pLSCF_MS",
                 "general-relations-hold-on-different-records:per", "general-relations-hold-on-different-records:cor",
                 *[f"odd-nxseg:{what}:{rt}:{m}" for what in ("grid-is-single-setup-grid", "relations-hold") for rt in ("function", "class") for m in ("per", "cor")],
-                *[f"even-non-power-of-two-nxseg:grid-is-single-setup-grid:{rt}:{m}" for rt in ("function", "class") for m in ("per", "cor")])
+                *[f"even-non-power-of-two-nxseg:grid-is-single-setup-grid:{rt}:{m}" for rt in ("function", "class") for m in ("per", "cor")],
+                *[f"shared:{a}:{p}:ok" for a in SHARED_AXES for p in SHARED_PASSES],
+                *[f"shared:class-ok:{c}" for c in CLASSES],
+                # ground truth: the instances sharing an object really expect different matrices (not for 'cor' x overlap: the
+                # correlogram does not use the overlap)
+                "shared:expected-matrices-of-two-instances-differ:overlap:per", "shared:expected-matrices-of-two-instances-differ:estimator:cor+per",
+                "shared:expected-matrices-of-two-instances-differ:nxseg:per", "shared:expected-matrices-of-two-instances-differ:nxseg:cor")
 
 
 def _layout(l):
@@ -600,6 +813,9 @@ def replay(case):
     if case["part"] == "func":
         idx, lay, method, nxseg, pov, nseg, walk = cfg
         t = func_item((seed, True, (idx, _layout(lay), method, nxseg, pov, nseg, walk)))
+    elif case["part"] == "shared":
+        idx, lay, place, axis, algs, N, gains = cfg
+        t = shared_item((seed, True, (idx, _layout(lay), [list(p) for p in place], axis, [tuple(a) for a in algs], N, tuple(gains))))
     else:
         idx, lay, place, method, nxseg, pov, nseg = cfg
         t = class_item((seed, True, (idx, _layout(lay), [list(p) for p in place], method, nxseg, pov, nseg)))
